@@ -4,20 +4,32 @@ CFG = dict(
     groups={},
     design_ref="DESIGN.md 6.5",
     technique="Coq decomposition theorem (C05 for layout + capitalisation selections follows from C06, C16 and C11, by induction over the "
-              "applied batches) + direct observation of parse(source) vs parse(fix(source)) over dialects x rule selections x fully parsable inputs",
+              "applied batches) + direct observation of parse(source) vs parse(fix(source)) over dialects x rule selections x rule configurations x fully parsable inputs",
     level_text="No mechanism in the code enforces C05 (the re-parse guard of the fix loop is 'if false'), so there is no kernel whose model "
                "could carry a proof: the technique does not decide C05 for code-rewriting rules (aliasing, ambiguous, convention, references, "
                "structure). What is machine-checked is the decomposition C05_decomposition: for any lexer, parser verdict and sequence of layout / "
                "capitalisation batches, C11 (verdict depends only on case-folded code tokens and gaps) + C06 + C16 imply that a parsable text "
                "stays parsable. Everything else is exploration: the property is observed directly on every run.",
     level_note="The antecedents of the decomposition are other properties (C06, C11, C16) and are only measured here (diagnostic monitors); the "
-               "gap relation of C11 is abstract. Findings are keyed by (dialect, rule selection, input hash).",
-    rule="inputs: dialect fixtures that parse with no Unparsable node and no parse violation (every 14th in quick, every 2nd in thorough), "
-         "each as is, whitespace-scrambled, collapsed to single spaces, and with keyword case flipped; selections: all, core, the 7 rule groups, "
-         "and every fix-compatible single rule (each input under all and core, corpus inputs under every group, plus a seeded sample of 6 (quick) / "
-         "12 (thorough) further selections per input); observation: fix output re-parsed with the same dialect must have 0 Unparsable nodes and 0 "
-         "parse violations. non-trivial = the fix changed the text (counted as changed_by_fix); no correspondence cases in this property",
+               "gap relation of C11 is abstract. Findings are keyed by (dialect, culprit rule, its non-default options[, parser stop tokens for layout-only batches]).",
+    rule="inputs (all must parse with no Unparsable node and no parse violation): C06's token-adjacency probes and minimised earlier failures; "
+         "dialect fixtures (every 14th in quick, every 2nd in thorough) as is, whitespace-scrambled, collapsed to single spaces, keyword case flipped; "
+         "single statements cut out of all fixtures; joint-*: a line-ending inline comment / block comment / bare line break put at one joint between "
+         "two code tokens, also where the source has no gap (a[1], x::int, f(, s.t) - at every joint of touch-site probes, sampled (biased to brackets, "
+         "casts, dots, colons, signs) in fixture statements, the rest of the statement exploded to one token group per line; option: fixture statements "
+         "relevant to a rule (trigger words; every distinct local context of the trigger in the dialect's fixtures is met first) under every non-default "
+         "value of every option a fix-compatible rule reads (48 configurations, listed in stats), rule alone and inside its group / all; synth: generated "
+         "queries with 1-4 sources (tables, aliased and unaliased derived tables, nested, VALUES, LATERAL, table functions, CTE references, FROM elements / "
+         "JOIN clauses / SELECTs cut out of the fixtures) x every join kind the dialect parses (semi, anti, asof, natural, comma ...) x ON / USING / none, "
+         "alone or under CTEs, set operators, INSERT / CREATE .. AS, derived wrappers. selections: all, core, the 7 groups, every fix-compatible single "
+         "rule; configurations: default, the 48 option configurations, two combined ones (first / last non-default value of every rule at once), the layout "
+         "configurations of C06. observation: fix output re-parsed with the same dialect and configuration must have 0 Unparsable nodes and 0 parse "
+         "violations; a failure is classed by (dialect, rule whose batch first made the text unparsable - found by replaying the recorded batches -, that "
+         "rule's non-default options, and for a layout-only batch the tokens at which the parser stops). non-trivial = the fix changed the text "
+         "(counted as changed_by_fix); no correspondence cases in this property",
     assumptions=["a crash of fix (C03's subject) leaves nothing to observe: counted and skipped",
+                 "CV10 force_enable is explored only in the dialects whose double-quoted tokens are string literals (bigquery, sparksql, databricks, mysql): "
+                 "elsewhere the option is documented as turning literals into identifiers",
                  "inputs that do not parse cleanly are outside the property's quantifier: counted and skipped"],
 )
 
